@@ -106,9 +106,15 @@ class ProxyCommand(ClosingContextManager):
 
                 r, w, x = select([self.process.stdout], [], [], select_timeout)
                 if r and r[0] == self.process.stdout:
-                    buffer += os.read(
+                    data = os.read(
                         self.process.stdout.fileno(), size - len(buffer)
                     )
+                    if not data:
+                        # EOF: the command exited (or closed its stdout).
+                        # Hand back what we have; like a socket, an empty
+                        # result tells the caller the stream is over.
+                        break
+                    buffer += data
             return buffer
         except socket.timeout:
             if buffer:
